@@ -38,7 +38,7 @@ def run(ck):
     r2 = ck.rule('O3.2', 'L(is_6531_local, default flags) == 5321 spec DFA + NONASCII as atom/quoted-text character, ILLFORMED dead; all lengths', 1)
     symbols, class_of, classes = lp.alphabet([tu.fn(fname)], utf8=True)
     spec = LP.local_spec(5321, utf8=True)
-    cfg, tr, found = lp.compare_with_spec(ck, r2, tu, fname, lambda term: machine_6531(tu, term, summary), spec, symbols, (0x40, 0x00), f'{key}:{fname}')
+    cfg, tr, found = lp.compare_with_spec(ck, r2, tu, fname, lambda term: machine_6531(tu, term, summary), spec, symbols, (0x40, 0x00) if ck.tier == 'quick' else tuple(sorted(set([0x40, 0x00] + [t for t in symbols if t < 0x100]))), f'{key}:{fname}')
     ck.sample({'alphabet': 'ASCII byte classes + NONASCII + ILLFORMED', 'symbols': len(symbols), 'configurations': cfg, 'transitions': tr})
     for c in LP.READING_CHOICES: ck.assume('spec reading: ' + c)
     ck.assume('callers pass end - start <= INT_MAX (the decoder keeps its length in an int); basic_email_check bounds it by 64 on the e-mail path')
